@@ -22,7 +22,7 @@ try:
     if tests:
         r = subprocess.run(["/venv/bin/python", "-m", "pytest", "-q", "-p", "no:cacheprovider", "-x"], cwd=d, capture_output=True, text=True)
         print("TESTS:", r.stdout.strip().splitlines()[-1])
-    env = dict(os.environ, MPILOT_VERIF_REPO=d)
+    env = dict(os.environ, MPILOT_VERIF_REPO=d, VERIF_EVIDENCE_DIR=d + "/evidence", VERIF_VIOLATION_DIR=d + "/violations")
     r = subprocess.run(["/verif/check"] + rest, env=env, capture_output=True, text=True)
     out = r.stdout.splitlines()
     print("\n".join(l[:260] for l in out[:14])); print("exit", r.returncode, r.stderr[-500:])
